@@ -68,6 +68,7 @@ def engToken (c : EngCase) (tok : String) : Option EngCase :=
     | "roe" => some { c with cfg := { c.cfg with resetOnEmpty := v = "1" } }
     | "wf" => some c
     | "res" => some c   -- which resource implementation the harness served the case with
+    | "opt" => some c   -- how the harness served it (assembled nodes, persister/store options)
     | "node" => match v.splitOn ":" with
       | [s, code] => do pure { c with nodes := c.nodes ++ [((← hexArg s), (← hexArg code))] }
       | _ => none
